@@ -28,7 +28,19 @@
 (*                                                                         *)
 (* mc/checks/c20.py runs TLC on this module once per constant assignment,  *)
 (* parses the complete state graph and replays EVERY behaviour against     *)
-(* pybrops.breed.arch.RecurrentSelectionBreedingProgram.                   *)
+(* pybrops.breed.arch.RecurrentSelectionBreedingProgram.  Binding of the   *)
+(* actions to what the instrumented environment observes:                  *)
+(*   Initialize -> InitializationOperator.initialize                       *)
+(*   ResetRep   -> assignment to lbook.rep (value = rep')                  *)
+(*   EvalInit, Evaluate -> EvaluationOperator.evaluate                     *)
+(*   PSelect / Mate / SSelect -> pselect / mate / sselect                  *)
+(*   LogInit / LogPSelect / LogMate / LogEvaluate / LogSSelect ->          *)
+(*       Logbook.log_initialize / log_pselect / log_mate / log_evaluate /  *)
+(*       log_sselect                                                       *)
+(*   Tick, Finish, Terminated -> not observable (Tick shows in the t_cur   *)
+(*       of the following calls)                                           *)
+(* every call is compared with t_cur, rep, work (received = before the     *)
+(* action, returned = after) and start of the model.                       *)
 (***************************************************************************)
 EXTENDS Naturals, Sequences, FiniteSets
 
